@@ -52,12 +52,21 @@ TRUSTED = [
 ASSUMPTIONS = ['one worker thread per history (threads: C08)', 'handlers keep no state of their own',
                'custom error handlers do not mutate the shared errors_map instances']
 
-MAX_BODY = 16
+MAX_BODY = 400          # config.max_body_size of the generated applications
+MEMFILE = 200           # config.max_memfile_size (also the in-memory budget of multipart fields)
+INT_LIMIT_PATH = '/n/' + '9' * 4301     # int() refuses more than 4300 digits: the int filter raises inside the router
 SHARED = [  # DefaultConfig.errors_map in source order: (index, status, body)
     (0, 400, 'Bad request'),
     (1, 413, 'Request entity too large'),
     (2, 400, 'Error while parsing chunked transfer body'),
 ]
+
+
+class Marker:
+    """lives in the environ of one request: alive <=> that environ is still reachable"""
+
+    def __init__(self, rid):
+        self.rid = rid
 
 
 class RecStream:
@@ -78,6 +87,8 @@ class RecStream:
 
 def req_path(case):
     rt = case['routing']
+    if rt['k'] == 'raise':
+        return INT_LIMIT_PATH
     if rt['k'] == '404':
         base = '/zz/x' if rt.get('partial') is None else '/nf/x'
     elif rt['k'] == '405':
@@ -113,14 +124,17 @@ def make_environ(req, streams):
     case = req['case']
     body = bytes(req.get('body', []))
     st = RecStream(req['id'], body, req.get('short'))
-    streams.append(weakref.ref(st))
+    mk = Marker(req['id'])
+    streams.append((weakref.ref(mk), weakref.ref(st)))
     env = {
         'REQUEST_METHOD': case['method'], 'PATH_INFO': raw_path_of(req), 'QUERY_STRING': req.get('qs', ''),
         'SERVER_NAME': 'localhost', 'SERVER_PORT': '80', 'SERVER_PROTOCOL': 'HTTP/1.1', 'wsgi.url_scheme': 'http',
         'wsgi.input': st, 'wsgi.errors': io.StringIO(), 'wsgi.version': (1, 0),
         'wsgi.multithread': False, 'wsgi.multiprocess': False, 'wsgi.run_once': False, 'SCRIPT_NAME': '',
-        'x.req_id': req['id'],
+        'x.req_id': req['id'], 'x.marker': mk,
     }
+    if req.get('ctype'):
+        env['CONTENT_TYPE'] = req['ctype']
     if req.get('chunked'):
         env['HTTP_TRANSFER_ENCODING'] = 'chunked'
     elif body or req.get('cl') is not None:
@@ -145,9 +159,9 @@ def build_app(case, rec_box):
     from ombott import Ombott
     if case.get('cfg_via') == 'setup':
         app = Ombott()
-        app.setup({'max_body_size': MAX_BODY})
+        app.setup({'max_body_size': MAX_BODY, 'max_memfile_size': MEMFILE})
     else:
-        app = Ombott({'max_body_size': MAX_BODY})
+        app = Ombott({'max_body_size': MAX_BODY, 'max_memfile_size': MEMFILE})
     progs = {r['id']: r for r in case['reqs']}
 
     def cur():
@@ -166,6 +180,10 @@ def build_app(case, rec_box):
                 return '%s %s %s %s' % (rq.method, rq.path, rq.query_string, rq.get_cookie('c'))
             if h.get('special') == 'body':
                 return str(len(app.request.body.read()))
+            if h.get('special') == 'json':
+                return 'json:' + json.dumps(app.request.json, sort_keys=True)
+            if h.get('special') == 'forms':
+                return ','.join(sorted(app.request.forms.keys()))
             return c3.run_prog(app, h, rec_box[0])
         return f
 
@@ -184,6 +202,7 @@ def build_app(case, rec_box):
     app.route('/h/a/<x:path>', method='ANY', callback=handler)
     for v in ('POST', 'PUT', 'DELETE', 'GET'):
         app.route('/m/<x:path>', method=v, callback=lambda **kw: 'unreachable')
+    app.route('/n/<id:int>', method='ANY', callback=lambda **kw: 'n')
     for i, hr in enumerate(['/h', '/h/a']):
         app.on_route(hr, interp('rhook', i, lambda c, i=i: nth(c['routing'].get('rhooks', []), i)))
     app.error(404, rule='/nf')(interp('handler', None, lambda c: c['routing'].get('partial')))
@@ -304,10 +323,11 @@ def run_history(case):
         responses.append(serve_one(app, r, rec_box, streams))
     tbs = [tb_owners(e) for e in app.config.errors_map.values()]
     gc.collect()
-    alive = sorted({w().rid for w in streams if w() is not None})
+    alive = sorted({m().rid for m, _ in streams if m() is not None})
+    alive_streams = sorted({w().rid for _, w in streams if w() is not None})
     if case.get('retention'):
         responses = responses[-1:]
-    return dict(responses=responses, tb=tbs, alive=alive)
+    return dict(responses=responses, tb=tbs, alive=alive, alive_streams=alive_streams)
 
 
 def other_app():
@@ -371,7 +391,7 @@ def project(obs, case):
     if 'responses' not in obs:
         return obs
     out = dict(responses=[dict(events=r['events'], escaped=r['escaped']) for r in obs['responses']],
-               tb=obs['tb'], alive=obs['alive'])
+               tb=obs['tb'], alive=obs['alive'])         # alive_streams: oracle only
     return mask_shared(out, case)
 
 
@@ -387,6 +407,13 @@ def mask_shared(out, case):
 # codec
 # --------------------------------------------------------------------------
 
+BODY_OUTCOME = {     # body class -> ('ok', None) | ('shared', index in errors_map)
+    'ok': ('ok', None), 'okchunk': ('ok', None), 'json_ok': ('ok', None), 'forms_ok': ('ok', None), 'urlenc_ok': ('ok', None),
+    'oversize': ('shared', 1), 'bigfield': ('shared', 1), 'urlenc_big': ('shared', 1),
+    'badchunk': ('shared', 2), 'badjson': ('shared', 2), 'noname': ('shared', 2),
+}
+
+
 def model_case(req):
     """the C03 case whose program the model runs for this request (special handlers resolved by the
     harness from the request data alone), the shared errors raised, and whether the body was consumed"""
@@ -401,12 +428,12 @@ def model_case(req):
             text = '%s %s %s %s' % (case['method'].upper(), req_path(case), req.get('qs', ''), ck)
             res = dict(k='ret', o=dict(k='str', s=text))
         else:
-            cls = req['body_class']
-            if cls in ('ok', 'okchunk'):
-                res = dict(k='ret', o=dict(k='str', s=str(req['body_len'])))
+            kind, idx = BODY_OUTCOME[req['body_class']]
+            if kind == 'ok':
+                res = dict(k='ret', o=dict(k='str', s=req['expect']))
                 replaced = reached
             else:
-                idx, code, text = SHARED[1] if cls == 'oversize' else SHARED[2]
+                _, code, text = SHARED[idx]
                 res = dict(k='raise_http', err=True,
                            r=dict(status=code, headers=[], cookies=[], body=dict(k='str', s=text)))
                 if reached:
@@ -420,6 +447,13 @@ def enc_req(req):
     rt = case['routing']
     if rt['k'] == '404':
         r = [0] + ([0] if rt.get('partial') is None else [1] + c3.enc_hprog(rt['partial']))
+    elif rt['k'] == 'raise':
+        try:
+            int('9' * 4301)
+            ej = ''
+        except ValueError as e:
+            ej = json.dumps(repr(e))
+        r = [3] + c3.S(ej)
     elif rt['k'] == '405':
         r = [1] + c3.S('DELETE,GET,POST,PUT')
     else:
@@ -487,8 +521,15 @@ def oracle(case, obs):
                 return ('request %d answered differently after this history than by a fresh application: %s vs %s'
                         % (k, str(da)[:160], str(db)[:160]))
     bound = 1 + len(SHARED)
-    if len(obs['alive']) > bound:
-        return '%d input streams alive after %d requests (bound %d)' % (len(obs['alive']), len(case['reqs']), bound)
+    for what, key_ in (('environs', 'alive'), ('input streams', 'alive_streams')):
+        if len(obs.get(key_, [])) > bound:
+            return '%d %s alive after %d requests (bound %d)' % (len(obs[key_]), what, len(case['reqs']), bound)
+    if not case.get('other_app') and obs.get('tb') != 'masked':
+        allowed = {case['reqs'][-1]['id']} | {o for owners in obs['tb'] for o in owners}
+        extra = [i for i in obs['alive'] if i not in allowed]
+        if extra:
+            return ('the environ of request %s is still alive although it is neither the last request nor in the '
+                    'traceback of a shared error' % extra)
     for i, owners in enumerate(obs['tb']):
         if len(set(owners)) > 1 or len(owners) > 1:
             return 'traceback chain of shared error %d holds frames of %d raises' % (i, len(owners))
@@ -513,6 +554,66 @@ def special(kind, **kw):
     return d
 
 
+BODY_CLASSES = sorted(BODY_OUTCOME)
+
+
+def _mp(parts):
+    return ('--B\r\n' + '--B\r\n'.join(parts) + '--B--\r\n').encode()
+
+
+def body_request(rng, rid, cls, secret=None):
+    """a request whose handler reads the body through request.body / request.json / request.forms;
+    `secret` = text that belongs to this request only (it must never show up in another response)"""
+    secret = secret or 'req%d-%04x' % (rid, rng.randrange(1 << 16))
+    req = dict(id=rid, qs='', cookie='', **{'class': 'body', 'body_class': cls})
+    how = 'body'
+    if cls == 'ok':
+        n = rng.randrange(0, 41)
+        req.update(body=[rng.randrange(256) for _ in range(n)], expect=str(n))
+    elif cls == 'oversize':
+        n = rng.randrange(MAX_BODY + 1, MAX_BODY + 30)
+        req.update(body=[rng.randrange(256) for _ in range(n)])
+    elif cls == 'okchunk':
+        data = [rng.randrange(97, 123) for _ in range(rng.randrange(0, 41))]
+        wire = (b'%x\r\n' % len(data) + bytes(data) + b'\r\n' if data else b'') + b'0\r\n\r\n'
+        req.update(body=list(wire), expect=str(len(data)), chunked=True)
+    elif cls == 'badchunk':
+        req.update(body=list(rng.choice([b'zz\r\nabc', b'5\r\nab', b'', b'3;x\r\nabcXX'])), chunked=True)
+    elif cls == 'json_ok':
+        doc = {'a': rng.randrange(100), 'b': [secret]}
+        how = 'json'
+        req.update(body=list(json.dumps(doc).encode()), ctype='application/json',
+                   expect='json:' + json.dumps(doc, sort_keys=True))
+    elif cls == 'badjson':
+        how = 'json'
+        req.update(body=list(('{"token": "%s"' % secret).encode()), ctype='application/json; charset=utf-8')
+    elif cls == 'forms_ok':
+        how = 'forms'
+        req.update(body=list(_mp(['Content-Disposition: form-data; name="x"\r\n\r\n%s\r\n' % secret,
+                                  'Content-Disposition: form-data; name="y"\r\n\r\nv2\r\n'])),
+                   ctype='multipart/form-data; boundary=B', expect='x,y')
+    elif cls == 'noname':
+        how = 'forms'
+        req.update(body=list(_mp(['Content-Disposition: form-data\r\nX-Upload-Token: %s\r\n\r\npayload\r\n' % secret])),
+                   ctype='multipart/form-data; boundary=B')
+    elif cls == 'bigfield':
+        how = 'forms'
+        req.update(body=list(_mp(['Content-Disposition: form-data; name="%s"\r\n\r\n%s\r\n' % (secret, 'v' * (MEMFILE + 20))])),
+                   ctype='multipart/form-data; boundary=B')
+    elif cls == 'urlenc_ok':
+        how = 'forms'
+        req.update(body=list(('a=%s&b=2' % secret).encode()), ctype='application/x-www-form-urlencoded', expect='a,b')
+    elif cls == 'urlenc_big':
+        how = 'forms'
+        req.update(body=list(('a=%s&b=' % secret).encode() + b'x' * MEMFILE), ctype='application/x-www-form-urlencoded')
+    else:
+        raise ValueError(cls)
+    if rng.random() < 0.4:
+        req['short'] = rng.choice([1, 2, 3, 7])
+    req['case'] = special(how, method='POST', json=rng.random() < 0.3)
+    return req
+
+
 def g_request(rng, rid):
     r = rng.random()
     req = dict(id=rid, qs=rng.choice(['', '', 'a=1', 'q=<x>&y=%22']), cookie=rng.choice(['', '', 'v1', 'zz']))
@@ -521,28 +622,16 @@ def g_request(rng, rid):
                     'case': plain(dict(k='falsy', v='none'), method=rng.choice(['GET', 'HEAD', 'POST']),
                                   json=rng.random() < 0.3)})
         return req
-    if r < 0.3:
-        cls = rng.choice(['ok', 'oversize', 'badchunk', 'okchunk', 'oversize', 'badchunk'])
-        if cls == 'ok':
-            n = rng.randrange(0, MAX_BODY + 1)
-            body = [rng.randrange(256) for _ in range(n)]
-            req.update(body=body, body_len=n)
-        elif cls == 'oversize':
-            n = rng.randrange(MAX_BODY + 1, MAX_BODY + 30)
-            req.update(body=[rng.randrange(256) for _ in range(n)], body_len=n)
-        elif cls == 'okchunk':
-            data = [rng.randrange(97, 123) for _ in range(rng.randrange(0, MAX_BODY + 1))]
-            wire = (b'%x\r\n' % len(data) + bytes(data) + b'\r\n' if data else b'') + b'0\r\n\r\n'
-            req.update(body=list(wire), body_len=len(data), chunked=True)
-        else:
-            req.update(body=list(rng.choice([b'zz\r\nabc', b'5\r\nab', b'', b'3;x\r\nabcXX'])), body_len=0, chunked=True)
-        if rng.random() < 0.4:
-            req['short'] = rng.choice([1, 2, 3, 7])
-        c = special('body', method='POST', json=rng.random() < 0.3)
-        c['before'] = [c3.g_hook(c3.Ctx(rng, False)) for _ in range(rng.choice([0, 0, 1]))]
-        req.update({'class': 'body', 'body_class': cls, 'case': c})
+    if r < 0.36:
+        b = body_request(rng, rid, rng.choice(BODY_CLASSES))
+        b['case']['before'] = [c3.g_hook(c3.Ctx(rng, False)) for _ in range(rng.choice([0, 0, 1]))]
+        return dict(req, **{k: v for k, v in b.items() if k not in ('qs', 'cookie')})
+    if r < 0.40:
+        # the router itself raises: an int wildcard with more digits than int() accepts
+        req.update({'class': 'routerboom', 'case': dict(plain(dict(k='falsy', v='none'), method=rng.choice(['GET', 'POST']),
+                                                             json=rng.random() < 0.3), routing=dict(k='raise'))})
         return req
-    if r < 0.4:
+    if r < 0.48:
         req.update({'class': 'echo', 'case': special('echo', method=rng.choice(['GET', 'POST', 'HEAD']),
                                                      path=rng.choice(['plain', 'special']))})
         return req
@@ -574,17 +663,16 @@ def retention_case(cls, n):
     reqs = []
     for i in range(n):
         req = dict(id=i, qs='', cookie='')
-        if cls == 'oversize':
-            req.update({'class': 'body', 'body_class': 'oversize', 'body': list(range(MAX_BODY + 4)),
-                        'body_len': MAX_BODY + 4, 'case': special('body', method='POST')})
-        elif cls == 'badchunk':
-            req.update({'class': 'body', 'body_class': 'badchunk', 'body': list(b'zz\r\nabc'), 'body_len': 0,
-                        'chunked': True, 'case': special('body', method='POST')})
-        elif cls == 'okbody':
-            req.update({'class': 'body', 'body_class': 'ok', 'body': [1, 2, 3], 'body_len': 3,
-                        'case': special('body', method='POST')})
+        if cls in ('oversize', 'badchunk', 'okbody', 'badjson', 'noname', 'bigfield'):
+            import random
+            b = body_request(random.Random('%s/%d' % (cls, 0)), i, 'ok' if cls == 'okbody' else cls, secret='s')
+            b.pop('short', None)
+            b['case']['json'] = False
+            req = b
         elif cls == 'badpath':
             req.update({'class': 'badpath', 'bad': 'utf8', 'case': plain(dict(k='falsy', v='none'))})
+        elif cls == 'routerboom':
+            req.update({'class': 'routerboom', 'case': dict(plain(dict(k='falsy', v='none')), routing=dict(k='raise'))})
         elif cls == 'crash':
             req.update({'class': 'ok', 'case': dict(plain(dict(k='falsy', v='none')),
                                                     routing=dict(k='ok', rhooks=[], h=dict(muts=[], res=dict(k='raise_exc'))))})
@@ -604,7 +692,8 @@ def retention_case(cls, n):
     return dict(kind='history', peek=False, eh=[], reqs=reqs, retention=cls)
 
 
-RET_CLASSES = ['oversize', 'badchunk', 'okbody', 'badpath', 'crash', '404', '405', 'cookie']
+RET_CLASSES = ['oversize', 'badchunk', 'okbody', 'badjson', 'noname', 'bigfield', 'badpath', 'crash', '404', '405', 'cookie',
+               'routerboom']
 
 
 def _req(rid, case, **kw):
@@ -648,6 +737,34 @@ def corpus():
             for how2 in ('mut', 'raise', 'resp'):
                 cs.append(dict(kind='history', peek=False, eh=[],
                                reqs=[_req(0, st_case(a, how1)), _req(1, st_case(b, how2)), _req(2, st_case(a, how2))]))
+    import random
+    rr = random.Random('corpus')
+    # a body error WITH a message, later one WITHOUT a message mapped to the same errors_map instance
+    # (seeded change: _raise copies err.args[0] into the shared instance's body)
+    for first, second in (('noname', 'badchunk'), ('badjson', 'badchunk'), ('bigfield', 'oversize'),
+                          ('urlenc_big', 'oversize'), ('badchunk', 'noname'), ('badjson', 'noname')):
+        for js in (False, True):
+            a = body_request(rr, 0, first, secret='alice-secret-7f3a')
+            b = body_request(rr, 2, second, secret='bob')
+            b['case']['json'] = js
+            cs.append(dict(kind='history', peek=False, eh=[], reqs=[a, _req(1, plain(hello)), b]))
+    for cls in BODY_CLASSES:
+        cs.append(dict(kind='history', peek=True, eh=[], reqs=[body_request(rr, 0, cls), body_request(rr, 1, cls)]))
+    # F12b: a shared error raised from inside an except block (its __context__ = this request's exception), then
+    # from outside one (urlencoded body over max_memfile_size): the first request must not stay alive
+    for first in ('bigfield', 'oversize', 'noname'):
+        for second in ('urlenc_big', 'badjson'):
+            cs.append(dict(kind='history', peek=False, eh=[],
+                           reqs=[body_request(rr, 0, first), body_request(rr, 1, second), _req(2, plain(hello))]))
+    # the router itself raises (int() limit) right after a request that set cookies / headers / status
+    # (seeded change: route resolution moved in front of response.__init__())
+    boom = dict(plain(dict(k='falsy', v='none')), routing=dict(k='raise'))
+    for js in (False, True):
+        cs.append(dict(kind='history', peek=False, eh=[],
+                       reqs=[_req(0, cookie), dict(_req(1, dict(boom, json=js)), **{'class': 'routerboom'}),
+                             _req(2, plain(hello))]))
+    cs.append(dict(kind='history', peek=True, eh=[], reqs=[dict(_req(0, boom), **{'class': 'routerboom'}), _req(1, cookie),
+                                                           dict(_req(2, dict(boom, method='POST')), **{'class': 'routerboom'})]))
     for flags in (dict(other_app=True), dict(cfg_via='setup'), dict(other_app=True, cfg_via='setup', peek=True)):
         base = dict(kind='history', peek=False, eh=[],
                     reqs=[_req(0, cookie), dict(over[0], id=1, short=3), dict(bad, id=2),
@@ -687,7 +804,7 @@ def nontrivial(case, obs):
         return False
 
     def leaves_state(r):
-        if r['class'] in ('badpath', 'body'):
+        if r['class'] in ('badpath', 'body', 'routerboom'):
             return True
         found = []
         c3.walk(r['case'], lambda d: found.append(1) if d.get('m') in ('cookie', 'set', 'add', 'status') or d.get('cookies') else None)
@@ -718,7 +835,7 @@ def shrink(case):
     if case['eh']:
         yield dict(case, eh=[])
     for i, r in enumerate(reqs):
-        if r['class'] not in ('badpath', 'body', 'echo'):
+        if r['class'] not in ('badpath', 'body', 'echo', 'routerboom'):
             for sc in c3.shrink(r['case']):
                 yield dict(case, reqs=reqs[:i] + [dict(r, case=sc)] + reqs[i + 1:])
 
